@@ -140,7 +140,7 @@ def run(tier):
     resps = generate([gen_request(e["schema"].sdl(), e["query"], dict(DEFAULT_OPTS, other_variant=e["ov"], **e.get("opts", {}))) for e in entries])
     farm = Farm("c03")
     for e, r in zip(entries, resps):
-        e["case"] = farm.add(Case(r["tokens"], [("op", "Op")], prelude="pub type Date = String; pub type Zoned = String; pub type date_time = String; pub type DateTime = String;")) if r["status"] == "ok" else None
+        e["case"] = farm.add(Case(r["tokens"], [("op", "Op")], prelude="pub type Date = String; pub type Zoned = String; pub type date_time = String; pub type DateTime = String; pub type _Any = String; pub type Any = String;")) if r["status"] == "ok" else None
     farm.build()
     reqs, meta = [], []
     conforming_of = {}
